@@ -51,6 +51,31 @@ func c17h(c *Ctx) {
 				if y.Index == 0 {
 					follow(fn, y, depth)
 				}
+			case *ssa.Return:
+				// handed back by a helper of package main (`return e.Emit()`): on to its callers
+				idx := -1
+				for i, res := range y.Results {
+					if res == v {
+						idx = i
+					}
+				}
+				for _, cs := range c.W.callsTo(fn) {
+					cv := cs.Value()
+					if cv == nil || idx < 0 {
+						continue
+					}
+					if len(y.Results) == 1 {
+						follow(cs.Parent(), cv, depth+1)
+						continue
+					}
+					if cv.Referrers() != nil {
+						for _, r2 := range *cv.Referrers() {
+							if ex, isEx := r2.(*ssa.Extract); isEx && ex.Index == idx {
+								follow(cs.Parent(), ex, depth+1)
+							}
+						}
+					}
+				}
 			case *ssa.MakeInterface:
 				follow(fn, y, depth)
 			case *ssa.Convert:
@@ -126,6 +151,10 @@ func c17h(c *Ctx) {
 	for _, fn := range mains {
 		for _, ci := range callsIn(fn) {
 			n := calleeName(ci)
+			if strings.HasPrefix(n, "flag.") && strings.HasSuffix(n, "Var") {
+				nFlags++ // bound to a variable of the program: stores to that variable are ordinary stores
+				continue
+			}
 			if !strings.HasPrefix(n, "flag.") || ci.Value() == nil || ci.Value().Referrers() == nil {
 				continue
 			}
